@@ -447,7 +447,7 @@ func fillScalar(r *rng, f *gField, v reflect.Value, wild bool) {
 	}
 	if f.enc == "none" && r.intn(3) == 0 {
 		// no alphabet applies: any byte may be stored, including 8-bit ones and UTF-8 sequences
-		alpha = "a0\x80\xff\xc3\xa9\xe9\x00\x7f"
+		alpha = "a0=\x80\xff\xc3\xa9\xe9\x00\x7f"
 	}
 	strLen := func() int {
 		if f.length >= 0 && r.intn(8) != 0 {
@@ -737,7 +737,7 @@ func genString(r *rng, gt *gType) string {
 				alpha = "abcXYZ019+/"
 			}
 			if f.enc == "none" && r.intn(3) == 0 {
-				alpha = "a0\x80\xff\xc3\xa9\xe9"
+				alpha = "a0=\x80\xff\xc3\xa9\xe9"
 			}
 			text = r.str(n, alpha)
 		}
